@@ -370,6 +370,7 @@ type fioResult struct {
 	id        [][]byte
 	wantInfo  *pdf.Info
 	mutated   []string // descriptions of caller objects changed by a Writer call
+	scrambled int      // places of caller-owned memory the harness overwrote after Writer calls had returned
 	xref      []pdf.VerifFIOEntry
 	nextRef   uint32
 	objStms   []pdf.Reference // one per successful WriteCompressed which made a stream (reference learnt after the fact)
@@ -391,6 +392,107 @@ func fioSnapshot(o pdf.Object) (res string) {
 		}
 	}()
 	return wire(o)
+}
+
+// fioDeepCopy returns a copy of o which shares no map, slice or string bytes
+// with it (the caller's own value, as opposed to the expectation kept by the
+// harness).  Scalars, references, placeholders and streams are returned as they
+// are.
+func fioDeepCopy(o pdf.Object) pdf.Object {
+	switch x := o.(type) {
+	case pdf.String:
+		if x == nil {
+			return x
+		}
+		return pdf.String(append([]byte{}, x...))
+	case pdf.Array:
+		if x == nil {
+			return x
+		}
+		res := make(pdf.Array, len(x))
+		for i, e := range x {
+			res[i] = fioDeepCopy(e)
+		}
+		return res
+	case pdf.Dict:
+		if x == nil {
+			return x
+		}
+		res := make(pdf.Dict, len(x))
+		for k, v := range x {
+			res[k] = fioDeepCopy(v)
+		}
+		return res
+	}
+	return o
+}
+
+// fioScramble is the caller re-using its memory after a Writer call has
+// returned: the bytes of every String at any depth are overwritten in place,
+// every array element is replaced, and every dictionary loses its smallest key
+// and gains a new one.  It returns the number of places changed.
+func fioScramble(o pdf.Object) int {
+	n := 0
+	switch x := o.(type) {
+	case pdf.String:
+		for i := range x {
+			x[i] = 'X'
+			n++
+		}
+	case pdf.Array:
+		for i, e := range x {
+			n += fioScramble(e)
+			x[i] = pdf.Name("mutated")
+			n++
+		}
+	case pdf.Dict:
+		if x == nil {
+			return 0
+		}
+		for _, v := range x {
+			n += fioScramble(v)
+		}
+		for _, k := range x.SortedKeys() {
+			x[k] = pdf.Name("mutated")
+		}
+		for _, k := range x.SortedKeys() {
+			delete(x, k)
+			break
+		}
+		x["Mutated"] = pdf.Integer(1)
+		n++
+	}
+	return n
+}
+
+// fioIsAliased reports whether got is what want becomes when the caller's later
+// changes (fioScramble, all of them or only the overwritten String bytes) show
+// through: the Writer kept a pointer into the caller's memory.
+func fioIsAliased(got, want pdf.Object) bool {
+	var xs func(o pdf.Object) pdf.Object
+	xs = func(o pdf.Object) pdf.Object {
+		switch x := o.(type) {
+		case pdf.String:
+			return pdf.String(bytes.Repeat([]byte{'X'}, len(x)))
+		case pdf.Array:
+			res := make(pdf.Array, len(x))
+			for i, e := range x {
+				res[i] = xs(e)
+			}
+			return res
+		case pdf.Dict:
+			res := make(pdf.Dict, len(x))
+			for k, v := range x {
+				res[k] = xs(v)
+			}
+			return res
+		}
+		return o
+	}
+	full := fioDeepCopy(want)
+	fioScramble(full)
+	g := normObj(got)
+	return !objEqual(g, normObj(want)) && (objEqual(g, normObj(xs(want))) || objEqual(g, normObj(full)))
 }
 
 // fioCloneDict makes a deep copy through the wire format.
@@ -476,19 +578,31 @@ func fioExec(p *fioProg, gen func(st *fioExecState) bool) *fioResult {
 	var w *pdf.Writer
 	var err error
 	var prefixFile *os.File
+	wopt := p.opts()
+	var wantID [][]byte
+	for _, id := range wopt.ID {
+		wantID = append(wantID, append([]byte{}, id...))
+	}
 	if p.createPath != "" && p.createPrefix != nil {
 		prefixFile, err = os.Create(p.createPath)
 		if err == nil {
 			_, err = prefixFile.Write(p.createPrefix)
 		}
 		if err == nil {
-			w, err = pdf.NewWriter(prefixFile, p.version, p.opts())
+			w, err = pdf.NewWriter(prefixFile, p.version, wopt)
 		}
 	} else if p.createPath != "" {
-		w, err = pdf.Create(p.createPath, p.version, p.opts())
+		w, err = pdf.Create(p.createPath, p.version, wopt)
 	} else {
-		w, err = pdf.NewWriter(sink, p.version, p.opts())
+		w, err = pdf.NewWriter(sink, p.version, wopt)
 	}
+	// the caller re-uses the ID slices and the options after the call
+	for _, id := range wopt.ID {
+		for i := range id {
+			id[i] = 'X'
+		}
+	}
+	wopt.ID = nil
 	if err != nil {
 		res.failedAt = -2
 		res.err = err
@@ -500,7 +614,13 @@ func fioExec(p *fioProg, gen func(st *fioExecState) bool) *fioResult {
 	if p.layout != "" {
 		w.GetMeta().Catalog.PageLayout = pdf.Name(p.layout)
 	}
-	res.id = w.GetMeta().ID
+	res.id = nil
+	for _, id := range w.GetMeta().ID {
+		res.id = append(res.id, append([]byte{}, id...))
+	}
+	if wantID != nil {
+		res.id = wantID // the ID at call time
+	}
 	info := &pdf.Info{Title: pdf.TextString(p.info[0]), Author: pdf.TextString(p.info[1])}
 	if p.info[2] != "" {
 		info.Custom = map[string]string{"FioKey": p.info[2]}
@@ -524,6 +644,16 @@ func fioExec(p *fioProg, gen func(st *fioExecState) bool) *fioResult {
 	var streamDict, streamWant pdf.Dict
 	var streamSnap string
 
+	// operations whose Go value is handed to the Writer a second time by a later
+	// operation ("@n"): these keep their identity and are not scrambled
+	shared := map[int]bool{}
+	for i := range p.ops {
+		if o := &p.ops[i]; (o.kind == 'P' || o.kind == 'S' || o.kind == 'O') && o.same >= 0 && o.same < i {
+			shared[o.same] = true
+			shared[i] = true
+		}
+	}
+
 	step := func(i int) (err error) {
 		defer func() {
 			if r := recover(); r != nil {
@@ -542,25 +672,18 @@ func fioExec(p *fioProg, gen func(st *fioExecState) bool) *fioResult {
 				op.obj = obj
 			}
 			before := fioSnapshot(obj)
-			if op.mutate {
-				// the caller hands over a dictionary or array and changes it after Put has
-				// returned (here: while the stream is still open, so the object is queued)
-				arg, _ := fioUnwire(wire(obj))
+			if op.mutate || !shared[i] {
+				// the caller hands over its own value and re-uses the memory after Put has
+				// returned — immediately, or while the stream is still open and the object
+				// is queued: String bytes at any depth are overwritten in place, array
+				// elements replaced, dictionary entries deleted and added.  What is read
+				// back must be the value at call time (obj).
+				arg := fioDeepCopy(obj)
 				err = w.Put(op.ref, arg)
-				switch x := arg.(type) {
-				case pdf.Dict:
-					x["Mutated"] = pdf.Integer(1)
-					for _, k := range x.SortedKeys() {
-						if k != "Mutated" {
-							delete(x, k)
-							break
-						}
-					}
-				case pdf.Array:
-					for k := range x {
-						x[k] = pdf.Name("mutated")
-					}
+				if after := fioSnapshot(arg); after != before {
+					res.mutated = append(res.mutated, fmt.Sprintf("op %d Put(%v): argument %s became %s", i, op.ref, before, after))
 				}
+				res.scrambled += fioScramble(arg)
 			} else {
 				err = w.Put(op.ref, obj)
 			}
@@ -587,7 +710,34 @@ func fioExec(p *fioProg, gen func(st *fioExecState) bool) *fioResult {
 			dict := op.stm.Dict
 			want := fioCloneDict(dict)
 			before := fioSnapshot(dict)
-			err = w.Put(op.ref, op.stm)
+			if !shared[i] {
+				// the caller's own stream value: after Put has returned the dictionary is
+				// changed and its strings overwritten; the data buffer is overwritten too
+				// unless the stream is queued behind an open one (its data is documented
+				// to be read when the stream is written)
+				deferred := stream != nil
+				buf := append([]byte(nil), op.data...)
+				own, _ := fioDeepCopy(dict).(pdf.Dict)
+				stm := pdf.NewStream(own, buf)
+				err = w.Put(op.ref, stm)
+				if after := fioSnapshot(own); after != before {
+					res.mutated = append(res.mutated, fmt.Sprintf("op %d Put(%v, stream of %d bytes): the stream's dictionary %s became %s", i, op.ref, len(op.data), before, after))
+				}
+				if !bytes.Equal(buf, op.data) {
+					res.mutated = append(res.mutated, fmt.Sprintf("op %d Put(%v, stream of %d bytes): data buffer changed", i, op.ref, len(op.data)))
+				}
+				if own != nil {
+					res.scrambled += fioScramble(own)
+				}
+				if !deferred {
+					for k := range buf {
+						buf[k] = 'X'
+						res.scrambled++
+					}
+				}
+			} else {
+				err = w.Put(op.ref, op.stm)
+			}
 			if after := fioSnapshot(dict); after != before {
 				res.mutated = append(res.mutated, fmt.Sprintf("op %d Put(%v, stream of %d bytes): the stream's dictionary %s became %s", i, op.ref, len(op.data), before, after))
 			}
@@ -672,6 +822,10 @@ func fioExec(p *fioProg, gen func(st *fioExecState) bool) *fioResult {
 			if !bytes.Equal(chunk, op.data) {
 				res.mutated = append(res.mutated, fmt.Sprintf("op %d Write: buffer changed", i))
 			}
+			for k := range chunk {
+				chunk[k] = 'X' // the caller re-uses its buffer (io.Writer: Write must not retain p)
+				res.scrambled++
+			}
 			streamData = append(streamData, op.data...)
 			if after := fioSnapshot(streamDict); after != streamSnap {
 				res.mutated = append(res.mutated, fmt.Sprintf("op %d Write on the stream opened at op %d: the dictionary given to OpenStream %s became %s", i, streamOp, streamSnap, after))
@@ -700,16 +854,29 @@ func fioExec(p *fioProg, gen func(st *fioExecState) bool) *fioResult {
 				before = append(before, fioSnapshot(o))
 			}
 			refsBefore := append([]pdf.Reference(nil), op.refs...)
-			err = w.WriteCompressed(op.refs, op.objs...)
+			// the caller's own slices and objects, re-used after the call has returned
+			refsArg := append([]pdf.Reference(nil), op.refs...)
+			objsArg := make([]pdf.Object, len(op.objs))
 			for k, o := range op.objs {
+				objsArg[k] = fioDeepCopy(o)
+			}
+			err = w.WriteCompressed(refsArg, objsArg...)
+			for k, o := range objsArg {
 				if after := fioSnapshot(o); after != before[k] {
 					res.mutated = append(res.mutated, fmt.Sprintf("op %d WriteCompressed: argument %d %s became %s", i, k, before[k], after))
 				}
 			}
 			for k := range refsBefore {
-				if op.refs[k] != refsBefore[k] {
+				if refsArg[k] != refsBefore[k] {
 					res.mutated = append(res.mutated, fmt.Sprintf("op %d WriteCompressed: refs[%d] changed", i, k))
 				}
+			}
+			for k, o := range objsArg {
+				res.scrambled += fioScramble(o)
+				objsArg[k] = pdf.Name("mutated")
+			}
+			for k := range refsArg {
+				refsArg[k] = pdf.NewReference(1, 0)
 			}
 			if err == nil {
 				for k, ref := range op.refs {
@@ -1413,6 +1580,9 @@ func oracleFileRoundTrip(res *fioResult) (v []fioViolation) {
 				key := "object-differs"
 				if wr.inObjStm {
 					key = "objstm-object-differs"
+				}
+				if !isStm && fioIsAliased(got, wr.obj) {
+					key = "put-aliases-caller-memory"
 				}
 				gw := "stream"
 				if !isStm {
@@ -2191,7 +2361,7 @@ func fioRunOneProg(c *Ctx, res *fioResult, broken int, sample bool) {
 	}
 	_ = expectFail
 	for _, v := range oracleFileRoundTrip(res) {
-		if res.prog.risky != "" && v.key != "xref-stream-entry-cap" {
+		if res.prog.risky != "" && v.key != "xref-stream-entry-cap" && v.key != "put-aliases-caller-memory" {
 			v.key = res.prog.risky
 		}
 		c.Violate("file-roundtrip", v.key, v.desc, text)
